@@ -61,7 +61,7 @@ def _jsonable(v):
 
 def explore(fn: Callable, *, budget_s: float = 120.0, per_path_s: float = 30.0, max_paths: int = 1_000_000,
             n_samples: int = 3, known_sigs=frozenset(), reset: Callable | None = None) -> Dict[str, Any]:
-    sig = inspect.signature(fn)
+    sig = inspect.signature(fn, eval_str=True)
     root = RootNode()
     res: Dict[str, Any] = dict(paths=0, confirmed=0, unknown=0, ignored=0, exhausted=False, verdict='incomplete',
                                cex=None, known_hits={}, samples=[], samples_validated=0, unknown_reasons={})
